@@ -801,8 +801,6 @@ where
 
       // 2. Check for an existing `LoadFuture`. If another thread is already
       //    loading this key, we become a "waiter".
-      //    DO NOT call self.shared.raw_get(key) here to prevent AB-BA deadlock.
-      //    The initial optimistic raw_get in fetch_with handles the "already cached" case.
       if let Some(existing_future) = pending.get(key) {
         // We will get a value, so this counts as a HIT for us.
         self.shared.metrics.record_hits(index, 1);
@@ -810,7 +808,17 @@ where
         break existing_future.clone();
       }
 
-      // 3. If we reach here, we are the "leader".
+      // 3. No load is in flight. One may have *completed* between our cache miss and this
+      //    lock (value inserted, pending entry removed): look again, or the loader would run
+      //    a second time for the same miss. Taking the shard lock under the pending lock is
+      //    safe: the only path that nests them the other way round (the stale-refresh
+      //    trigger) uses try_lock.
+      if let Some(value) = self.peek(key) {
+        self.shared.metrics.record_hits(index, 1);
+        return value;
+      }
+
+      // 4. If we reach here, we are the "leader".
       //    This is the only time a MISS is recorded for the entire operation.
       self.shared.metrics.record_misses(index, 1);
       //    Create a new future, insert it as a placeholder.
